@@ -1,9 +1,9 @@
 package main
 
 import (
-	"github.com/crate-crypto/go-ipa/ipa"
 	"bufio"
 	"fmt"
+	"github.com/crate-crypto/go-ipa/ipa"
 	"os"
 	"runtime"
 	"strconv"
